@@ -106,8 +106,7 @@ chk('C20', 'model_checking',
     'bounded symbolic execution of LLVM IR (lsx) + z3 linear integer arithmetic via an exact FP encoding', 'DESIGN.md §3 C20')
 for pid, why in (
     ('C10', 'persistence across close/reopen is a fact about SQLite\'s pager and two attached files; the glue has no input, schedule or fault to quantify over and SQLite (250 kLoC, not in the tree) cannot be encoded for a bounded symbolic engine (DESIGN.md §4)'),
-    ('C12', 'a finite comparison of DDL emitted by create() with reference dumps modulo SQLite\'s own parser; no symbolic variable, needs the real SQLite to normalise both sides (DESIGN.md §4)'),
-    ('C17', 'quantifies over structural mutations of a catalog only SQLite can produce, judged by ~9000 lines of std::set<std::string> expectation lists; symbolic catalogs through that code are beyond reach, enumerating concrete mutations would be sampling, not this family (DESIGN.md §4)')):
+    ('C12', 'a finite comparison of DDL emitted by create() with reference dumps modulo SQLite\'s own parser; no symbolic variable, needs the real SQLite to normalise both sides (DESIGN.md §4)')):
     na(pid, why)
 chk('C07', 'model_checking',
     'Both generations (2.x: database_impl / crate_impl / playlist_table; 1.x: engine_database_impl / engine_crate_impl incl. the three redundant encodings and, from 1.9.1, the List views with INSTEAD OF triggers): symbolic execution '
@@ -136,10 +135,20 @@ chk('C11', 'model_checking',
     '(checks/raw_reader.py: plain SELECTs over the modelled rows, nothing of the library\'s accessors) judges the stored tables: 2.x parent links resolve and are acyclic, the sibling chain of every parent and the entity chain '
     'of every list are single acyclic lists covering all rows, entities name existing lists and tracks, a track\'s origin ids name the track and the database uuid, the file-name column agrees with the path; 1.x the path strings, '
     'the parent list and the flattened hierarchy describe the same forest (exactly one parent row per crate, hierarchy == transitive closure, path == titles from the root) and the track lists name existing crates and tracks.',
-    'NOT covered (stated, they are facts about SQLite or belong to other checks): PRAGMA integrity_check / foreign_key_check, verify() (C17 is not applicable), blob decodability (C03), extension / file-type columns (C06). '
+    'NOT covered (stated, they are facts about SQLite or belong to other checks): PRAGMA integrity_check / foreign_key_check, verify() (see C17), blob decodability (C03), extension / file-type columns (C06). '
     'Trusted: as C07; the reader judges the model\'s rows - that the real SQLite holds the same rows is what the differential validation and the native replays of C07/C08 establish. Reader counterexamples cannot be replayed '
     'natively (the native twin has no reader).',
     'bounded symbolic execution of LLVM IR (lsx, z3) over a relational sqlite3 model + independent reader of the modelled tables', 'DESIGN.md §3 C11')
+chk('C17', 'model_checking',
+    'The real verify() of each schema version (schema/schema_*.cpp, schema_validate_utils.hpp, sqlite_modern_cpp row extraction, std::set ordering) is executed symbolically over a catalog model of the sqlite3 API. '
+    'The catalog answered (sqlite_master by type, PRAGMA table_info / index_list / index_info) is the one the REAL SQLite reports for a library that the library built from the working tree has just created in that version, '
+    'with at most one structural deviation applied consistently to every query it touches: missing / extra / renamed table, view, column or index; column type, nullability, default, key membership. The replacement value '
+    '(name, type, default text, flags) is symbolic, the deviation is chosen lazily at the first query it affects (one fork per deviation, ~500 per schema). Asserted: no replacement value different from the original lets verify() '
+    'return (V1); the undeviated catalog is accepted (V2); every enumerated deviation changes some query verify() actually issues (V3).',
+    'Trusted: clang lowering, lsx incl. its model of libstdc++\'s red-black-tree primitives, lsx/models_sqlite.py, checks/catalog.py (how one deviation shows in each catalog query), the system SQLite for the ground-truth catalog, z3. '
+    'Outside: several deviations at once; type changes of key columns and key-membership changes that add or remove an automatic index; index attributes; columns of views; triggers; reference dumps from Engine itself (C12); schema 3.0.0. '
+    'Counterexamples are solver models over the catalog model and are not replayed against a hand-mutated SQLite file.',
+    'symbolic execution of LLVM IR (lsx, z3) over a catalog model of the sqlite3 API seeded from the real SQLite', 'DESIGN.md §3 C17')
 PENDING = []
 
 def main():
